@@ -69,9 +69,9 @@ type e2eCase struct {
 }
 
 // nEnv option environments around the No-Response option: what else the request carries must not matter.
-const nEnv = 6
+const nEnv = 8
 
-var envNames = []string{"path+NR", "NR-alone", "path+NR+2049(above 258)", "path+query+content-format+NR+2050+65000", "if-match x2+uri-host+path x2+accept+size1+NR", "if-none-match+path+NR+2049+2053"}
+var envNames = []string{"path+NR", "NR-alone", "path+NR+2049(above 258)", "path+query+content-format+NR+2050+65000", "if-match x2+uri-host+path x2+accept+size1+NR", "if-none-match+path+NR+2049+2053", "etag of 9 bytes (illegal length: skipped by the decoder)+path+NR", "path+size1 of 5 bytes (illegal length: skipped)+NR+2049"}
 
 func envOpts(env int, v uint32) []ref.Opt {
 	nr := ref.Opt{ID: 258, Val: ref.Uint(v)}
@@ -89,12 +89,18 @@ func envOpts(env int, v uint32) []ref.Opt {
 		return []ref.Opt{{ID: 1, Val: []byte{1}}, {ID: 1, Val: []byte{2}}, {ID: 3, Val: []byte("h")}, path, path, {ID: 17, Val: nil}, {ID: 60, Val: []byte{9}}, nr}
 	case 5:
 		return []ref.Opt{{ID: 5, Val: nil}, path, nr, {ID: 2049, Val: []byte{8, 0}}, {ID: 2053, Val: []byte{8, 0}}}
+	case 6:
+		// an elective option whose value length is outside its definition is skipped by the receiver (RFC 7252 5.4.3): the
+		// options behind it are still the options they are
+		return []ref.Opt{{ID: 4, Val: []byte{1, 2, 3, 4, 5, 6, 7, 8, 9}}, path, nr}
+	case 7:
+		return []ref.Opt{path, {ID: 60, Val: []byte{1, 2, 3, 4, 5}}, nr, {ID: 2049, Val: []byte{8, 0}}}
 	}
 	return []ref.Opt{path, nr}
 }
 
 func TestRun(t *testing.T) {
-	rec := vr.New("C20", "exhaustive: 32 No-Response values x 256 response codes (+ PRNG 32-bit values x 256 codes) on IsNoResponseCode and ResponseWriter.SetResponse; wire: every (value 0..31 plus PRNG values 32..255, code 0..255) x {CON,NON} x request methods GET/POST/PUT/DELETE/FETCH/PATCH/iPATCH on a real udp connection and on a real tcp connection, emitted datagrams/frames inspected (every eighth handler hijacks and releases the request before it answers); every request in one of 6 option environments (No-Response alone, with lower options, with options numbered above 258 such as 2049/2053/65000, behind many lower options); the library's own 4.04 generators (mux router default handler, default handlers of the udp/dtls/tcp client and server configurations) for every value. Distinct = (kind,value,code[,type]) visited once by construction.")
+	rec := vr.New("C20", "exhaustive: 32 No-Response values x 256 response codes (+ PRNG 32-bit values x 256 codes) on IsNoResponseCode and ResponseWriter.SetResponse; wire: every (value 0..31 plus PRNG values 32..255, code 0..255) x {CON,NON} x request methods GET/POST/PUT/DELETE/FETCH/PATCH/iPATCH on a real udp connection and on a real tcp connection, emitted datagrams/frames inspected (every eighth handler hijacks and releases the request before it answers); every request in one of 8 option environments (No-Response alone, with lower options, with options numbered above 258 such as 2049/2053/65000, behind many lower options, behind an option the decoder skips for its illegal length); the library's own 4.04 generators (mux router default handler, default handlers of the udp/dtls/tcp client and server configurations) for every value. Distinct = (kind,value,code[,type]) visited once by construction.")
 	defer rec.Flush(true)
 	seed := vr.Seed()
 	rnd := rand.New(rand.NewSource(seed))
